@@ -14,6 +14,7 @@ C13 == INSTANCE Mon_C13 WITH MCfg <- P
 C08 == INSTANCE Mon_C08 WITH MCfg <- P
 C09 == INSTANCE Mon_C09 WITH MCfg <- P
 C17 == INSTANCE Mon_C17 WITH MCfg <- P
+C10 == INSTANCE Mon_C10 WITH MCfg <- P
 
 Verdicts(tr) ==
   [C06 |-> FoldLeft(C06!Step, C06!Init, tr).viol,
@@ -23,7 +24,8 @@ Verdicts(tr) ==
    C13 |-> FoldLeft(C13!Step, C13!Init, tr).viol,
    C08 |-> FoldLeft(C08!Step, C08!Init, tr).viol,
    C09 |-> FoldLeft(C09!Step, C09!Init, tr).viol,
-   C17 |-> FoldLeft(C17!Step, C17!Init, tr).viol]
+   C17 |-> FoldLeft(C17!Step, C17!Init, tr).viol,
+   C10 |-> FoldLeft(C10!Step, C10!Init, tr).viol]
 
 ASSUME JsonSerialize(IOEnv.OUT, [i \in 1..Len(Traces) |-> Verdicts(Traces[i])])
 
